@@ -132,6 +132,8 @@ func init() {
 			"and a liveness probe in every block (fresh valid SEND from a reserved account) returns code 0. Non-trivial: >=5 hostile inputs and >=5 probes; distinct = distinct fingerprints; `inputs` = inputs submitted (CheckTx + delivery).",
 		MakeSetup: func(rng *rand.Rand, tier string, seed uint64) *Setup {
 			k := SwarmKnobs(rng)
+			// a block whose transactions use up a finite gas limit must not stop the node either (2M: most blocks do)
+			k.MaxGas = []int64{-1, -1, 40000000, 8000000, 2000000}[rng.Intn(5)]
 			su := &Setup{Knobs: k, Sess: gen.NewSession()}
 			su.Sess.M["lethal"] = true
 			su.Sess.M["olvm-basefee"] = true
